@@ -767,7 +767,13 @@ func finish(ck *Check, o RunOpts, known *KnownFile, results []*CaseResult, crash
 		}
 	}
 
-	os.MkdirAll(filepath.Join(o.Root, "evidence"), 0o755)
+	// tools that run a check against a scratch copy carrying a seeded change set VERIF_EVIDENCE_DIR, so that the
+	// committed evidence directory only ever holds runs against /repo itself
+	evDir := filepath.Join(o.Root, "evidence")
+	if d := os.Getenv("VERIF_EVIDENCE_DIR"); d != "" {
+		evDir = d
+	}
+	os.MkdirAll(evDir, 0o755)
 	os.MkdirAll(filepath.Join(o.Root, "replays", id), 0o755)
 	exit := 0
 	var lines []string
@@ -881,7 +887,7 @@ func finish(ck *Check, o RunOpts, known *KnownFile, results []*CaseResult, crash
 		ev["coverage_floor_missed"] = floorMsg
 	}
 	b, _ := json.MarshalIndent(ev, "", " ")
-	os.WriteFile(filepath.Join(o.Root, "evidence", id+".json"), b, 0o644)
+	os.WriteFile(filepath.Join(evDir, id+".json"), b, 0o644)
 	fmt.Printf("%s %s seed=%d: cases=%d held-nontrivial-distinct=%d inconclusive=%d violations=%d known=%d wall=%.1fs\n", id, o.Tier, o.Seed, evals, len(fps), len(inconc), len(seenSig), len(knownHits), time.Since(start).Seconds())
 	if exit == 0 && !floorOK {
 		fmt.Printf("INCONCLUSIVE property=%s %s\n", id, floorMsg)
